@@ -553,6 +553,9 @@ def _probes(case, wres):
     p["cache_shrink_world"] = 1 if case.get("world_flags", {}).get("cache_shrink") else 0
     p["sensitivity_session"] = 1 if any(str(s.get("pid", "")).startswith("sens:") for s in case["sessions"]) else 0
     p["abandoned_or_repeated"] = 1
+    # cause hint: a step after which the global options no longer equal the owning session's vector (CLI sessions own argv's options)
+    p["settings_changed_during_step"] = sum(1 for o, r in zip(case["ops"], wres["results"])
+                                            if r.get("settings_as_owned") is False and case["sessions"][o["sid"]]["kind"] != "cli")
     return p
 
 
